@@ -19,5 +19,20 @@ pub fn gen(tier: &str, seed: u64) -> Vec<String> {
         let h = consistent_history(&mut r, &keys, n_ev, gaps, 700);
         lines.push(mk_line("LAY", false, &cfg, &h));
     }
+    // chv2: the same grammar with a `defchordsv2` table over the same keys (appended: the cases above
+    // are what they were)
+    let mut r = Rng::new(seed ^ 0xA11C2);
+    for i in 0..n / 3 {
+        let (cfg, keys) = crate::chv2gen::gen_full_cfg_chv2(&mut r, false);
+        let n_ev = if i % 12 == 0 { r.range(40, 100) } else { r.range(1, 24) } as usize;
+        let gaps: &[u32] = match i % 4 {
+            0 => &[0, 1, 2, 3, 5],
+            1 => &[0, 1, 4, 9, 10, 11],
+            2 => &[1, 2, 19, 20, 21, 49, 50, 51],
+            _ => &[0, 0, 1, 30],
+        };
+        let h = consistent_history(&mut r, &keys, n_ev, gaps, 700);
+        lines.push(mk_line("LAY", false, &cfg, &h));
+    }
     lines
 }
